@@ -16,6 +16,7 @@ pub mod c13;
 pub mod c14;
 pub mod c15;
 pub mod c16;
+pub mod c18rt;
 pub mod c19;
 pub mod c20;
 pub mod e2e;
